@@ -463,7 +463,7 @@ func c12Mech(lines []string) string {
 	for _, l := range lines {
 		st := f12Index[l]
 		switch {
-		case st.Kind == "glob":
+		case st.Kind == "glob" || st.Kind == "eattr":
 			sawGlob = true
 		case st.Kind == "eglob":
 			sawEGlob = true
